@@ -156,6 +156,30 @@ def gen_outside_family(rng):
     return dict(seq=seq, constraints=tuple(cs), objectives=(), cfg=cfg, np_seed=rng.randint(0, 10**6))
 
 
+def gen_shared_table_family(rng):
+    """one user codon-usage table (the same dict object, see specs.table_from_desc) handed to a
+    rare-codon constraint and to a codon-optimisation objective"""
+    from .problems import kw
+    from .specs import user_table, table_to_desc, rcs
+    from Bio.Data import CodonTable
+    std = CodonTable.unambiguous_dna_by_name["Standard"]
+    back = {}
+    for c, a in std.forward_table.items():
+        back.setdefault(a, []).append(c)
+    prot = "".join(rng.choice("ACDEFGHIKLNPQRSTVY") for _ in range(rng.randint(6, 10)))
+    gene = "".join(rng.choice(back[a]) for a in prot)
+    strand = rng.choice([1, -1])
+    seq = gene if strand == 1 else rcs(gene)
+    tbl = table_to_desc(user_table(rng))
+    loc = (0, len(seq), strand)
+    cs = [("EnforceTranslation", kw(location=loc)),
+          ("AvoidRareCodons", kw(location=loc, min_frequency=rng.choice([0.1, 0.15]), codon_usage_table=tbl))]
+    os_ = [rng.choice([("MaximizeCAI", kw(location=loc, codon_usage_table=tbl, boost=1.0)),
+                       ("HarmonizeRCA", kw(location=loc, codon_usage_table=tbl, original_codon_usage_table=tbl, boost=1.0))])]
+    cfg = dict(threshold=10000, max_iters=40, mutations=2, extensions=(0, 5), stagnation=None)
+    return dict(seq=seq, constraints=tuple(cs), objectives=tuple(os_), cfg=cfg, np_seed=rng.randint(0, 10**6))
+
+
 def gen_uniquify_family(rng):
     """k-mer uniqueness with seeded repeats (forward and reverse-complement copies)"""
     from .problems import kw
@@ -222,6 +246,8 @@ def run(chk):
         ps.append(gen_outside_family(chk.rng))
     while len(ps) < N // 2 + N // 6:
         ps.append(gen_uniquify_family(chk.rng))
+    while len(ps) < N // 2 + N // 6 + N // 8:
+        ps.append(gen_shared_table_family(chk.rng))
     while len(ps) < N:
         p = problems.gen_problem(chk.rng, with_objectives=chk.rng.random() < 0.6, allow_custom=True,
                                  custom_kinds=problems.SOUND_CUSTOM)
